@@ -414,7 +414,8 @@ class TransformationInstructionsGenerator:
         continue
       elif check_replace_dq_q_with_rq(producer_trans_rule, trans_rule):
         for consumer_id in trans_rule.consumers:
-          producer_trans_rule.consumers.remove(consumer_id)
+          if consumer_id in producer_trans_rule.consumers:
+            producer_trans_rule.consumers.remove(consumer_id)
         transformations.append(
             qtyping.TransformationInst(
                 qtyping.QuantTransformation.QUANTIZE_TENSOR,
